@@ -61,6 +61,8 @@ impl SpatialTrackHandle {
 	) -> Result<TrackHandle, ResourceLimitReached> {
 		let (mut track, handle) =
 			builder.build(self.renderer_shared.clone(), self.internal_buffer_size);
+		#[cfg(feature = "verif-hooks")]
+		crate::verif::sync_point("renderer.sample_rate.load");
 		track.init_effects(self.renderer_shared.sample_rate.load(Ordering::SeqCst));
 		self.sub_track_controller.insert(track)?;
 		Ok(handle)
@@ -79,6 +81,8 @@ impl SpatialTrackHandle {
 			listener.into(),
 			position.into().to_(),
 		);
+		#[cfg(feature = "verif-hooks")]
+		crate::verif::sync_point("renderer.sample_rate.load");
 		track.init_effects(self.renderer_shared.sample_rate.load(Ordering::SeqCst));
 		self.sub_track_controller.insert(track)?;
 		Ok(handle)
